@@ -540,20 +540,20 @@ class XPathToken(Token[ta.XPathTokenType]):
         msg = "cannot compare {!r} and {!r}"
 
         if self.parser.compatibility_mode:
-            left_values = [x for x in self._items[0].atomization(context)]
-            right_values = [x for x in self._items[1].atomization(context)]
-            # Boolean comparison if one of the results is a single boolean value (1.)
-            try:
-                if isinstance(left_values[0], bool):
-                    if len(left_values) == 1:
-                        yield left_values[0], self.boolean_value(right_values)
-                        return
-                if isinstance(right_values[0], bool):
-                    if len(right_values) == 1:
-                        yield self.boolean_value(left_values), right_values[0]
-                        return
-            except IndexError:
+            left_items = [x for x in self._items[0].select(copy(context))]
+            right_items = [x for x in self._items[1].select(copy(context))]
+
+            # Boolean comparison if one of the operands is a single boolean value (1.):
+            # the other operand (a node-set too) is converted by its effective boolean value.
+            if len(left_items) == 1 and isinstance(left_items[0], bool):
+                yield left_items[0], self.boolean_value(right_items)
                 return
+            elif len(right_items) == 1 and isinstance(right_items[0], bool):
+                yield self.boolean_value(left_items), right_items[0]
+                return
+
+            left_values = [v for x in left_items for v in self._items[0].atomize_item(x)]
+            right_values = [v for x in right_items for v in self._items[1].atomize_item(x)]
 
             # Converts to float for lesser-greater operators (3.)
             if self.symbol in ('<', '<=', '>', '>='):
